@@ -1,38 +1,40 @@
 #!/usr/bin/env python3
-"""Apply every seeded change to /repo in turn, run the quick checks of the properties it breaks, undo it.
-Writes /verif/seeded/RESULTS.json and prints a table.  Never commits anything to /repo."""
+"""Run the quick checks of the properties each seeded change breaks, with the change applied to a scratch
+worktree of /repo's HEAD (VERIF_REPO points the checks at it; /repo itself is not touched).
+Writes /verif/seeded/RESULTS.json (merged) and prints a table."""
 import json, os, subprocess, sys, re
 V = "/verif"
 names = sorted(d for d in os.listdir(V + "/seeded") if os.path.isdir(V + "/seeded/" + d))
 if len(sys.argv) > 1:
     names = [n for n in names if any(a in n for a in sys.argv[1:])]
 res = json.load(open(V + "/seeded/RESULTS.json")) if os.path.exists(V + "/seeded/RESULTS.json") else {}
-if subprocess.run("git -C /repo status --short | grep -v '^??'", shell=True, capture_output=True).stdout.strip():
-    sys.exit("repo not clean")
+W = "/tmp/seed/matrix_%d" % os.getpid()
 for n in names:
     d = V + "/seeded/" + n
-    meta = json.load(open(d + "/meta.json")) if os.path.exists(d + "/meta.json") else {"property": n.split("-")[0]}
+    meta = json.load(open(d + "/meta.json")) if os.path.exists(d + "/meta.json") else {"property": n.split("-")[0][:3]}
     props = [meta["property"]] + [p for p in meta.get("also_breaks", [])]
-    ok = False
-    for extra in ([], ["-C1"], ["-C0", "--recount"]):
-        r = subprocess.run(["git", "-C", "/repo", "apply"] + extra + [d + "/patch.diff"], capture_output=True, text=True)
-        if r.returncode == 0:
-            ok = True
-            break
-    if not ok:
-        res[n] = {"applies": False, "error": r.stderr.strip()[:200]}
-        print("%-45s DOES NOT APPLY" % n)
-        continue
+    subprocess.run(["git", "-C", "/repo", "worktree", "add", "--detach", W, "HEAD", "-q"])
     try:
+        ok = False
+        for extra in ([], ["-C1"], ["-C0", "--recount"]):
+            r = subprocess.run(["git", "-C", W, "apply"] + extra + [d + "/patch.diff"], capture_output=True, text=True)
+            if r.returncode == 0:
+                ok = True
+                break
+        if not ok:
+            res[n] = {"applies": False, "error": r.stderr.strip()[:200]}
+            print("%-45s DOES NOT APPLY" % n)
+            continue
         row = {}
         for p in props:
-            r = subprocess.run([V + "/bin/check", p], capture_output=True, text=True)
+            r = subprocess.run([V + "/bin/check", p], capture_output=True, text=True, env=dict(os.environ, VERIF_REPO=W))
             viol = [l for l in r.stdout.splitlines() if l.startswith("VIOLATION")]
             concrete = [l for l in viol if "no-failing-input-found" not in l]
             row[p] = {"exit": r.returncode, "violations": len(viol), "concrete": len(concrete),
                       "first": (concrete or viol or [""])[0][:160]}
         res[n] = {"applies": True, "checks": row}
-        print("%-45s %s" % (n, "  ".join("%s:%s" % (p, "CAUGHT(%d concrete)" % v["concrete"] if v["concrete"] else ("flagged-no-input" if v["violations"] else "MISSED")) for p, v in row.items())))
+        print("%-45s %s" % (n, "  ".join("%s:%s" % (p, "CAUGHT(%d concrete)" % v["concrete"] if v["concrete"] else ("flagged-no-input" if v["violations"] else "MISSED")) for p, v in row.items())), flush=True)
     finally:
-        subprocess.run(["git", "-C", "/repo", "checkout", "--", "."])
+        subprocess.run(["git", "-C", "/repo", "worktree", "remove", "--force", W])
+subprocess.run("cd /verif && git checkout -q -- evidence harness/.cargo/config.toml", shell=True)
 json.dump(res, open(V + "/seeded/RESULTS.json", "w"), indent=1)
